@@ -98,8 +98,9 @@ def _construct_faces(run, P):
     fn = f.node
     # table rows
     alloc = None
+    returned = {norm(r.value) for r in ast.walk(fn) if isinstance(r, ast.Return) and r.value is not None}
     for st in iter_stmts(fn.body):
-        if isinstance(st, ast.Assign) and isinstance(st.targets[0], ast.Name) and isinstance(st.value, ast.Call) and (dotted(st.value.func) or [""])[-1] == "full":
+        if isinstance(st, ast.Assign) and isinstance(st.targets[0], ast.Name) and isinstance(st.value, ast.Call) and (dotted(st.value.func) or [""])[-1] == "full" and st.targets[0].id in returned:
             alloc = st
     c = f"{f.key}:rows"
     if alloc is None:
@@ -123,40 +124,80 @@ def _construct_faces(run, P):
         probs.append("table not initialised with INT_FILL_VALUE")
     if not S.is_intdtype(dt):
         probs.append("table not INT_DTYPE")
-    # skip test and correction
+    # skip test and dense row numbering
+    from ..astutil import Resolver, InterDefs
+    RZ = Resolver(fn)
     loop = next((s for s in iter_stmts(fn.body) if isinstance(s, ast.For)), None)
     skip = None
+    unknown = []
     if loop is not None:
+        ivar = norm(loop.target)
         for s in loop.body:
-            if isinstance(s, ast.If) and isinstance(s.test, ast.Compare) and "n_edges" in norm(s.test.left) and any(isinstance(x, ast.Continue) for x in s.body):
+            if isinstance(s, ast.If) and isinstance(s.test, ast.Compare) and len(s.test.ops) == 1 and RZ.norm(s.test.left) == f"n_edges[{ivar}]" and any(isinstance(x, ast.Continue) for x in s.body) and isinstance(s.test.comparators[0], ast.Constant):
                 op, k = s.test.ops[0], s.test.comparators[0]
                 thr = k.value if isinstance(op, ast.Lt) else k.value + 1 if isinstance(op, ast.LtE) else None
-                inc = any(isinstance(x, ast.AugAssign) and isinstance(x.op, ast.Add) and norm(x.value) == "1" for x in s.body)
-                skip = (thr, inc, s, next((norm(x.target) for x in s.body if isinstance(x, ast.AugAssign)), None))
+                skip = (thr, s)
     if skip is None:
         probs.append("nodes with fewer than three faces are not skipped")
     else:
-        thr, inc, s, cname = skip
+        thr, s = skip
         if thr != 3 or thr_alloc not in (None, 3) or (thr_alloc is not None and thr != thr_alloc):
             probs.append(f"nodes are skipped below {thr} faces but the table has rows for nodes with at least {thr_alloc}: a dual face needs at least 3 corners and the two counts must agree")
-        if not inc:
-            probs.append("skipped nodes are not counted: later rows are written at the wrong position")
-        # row written at i - correction
-        ivar = norm(loop.target)
         stores = [x for x in iter_stmts(loop.body) if isinstance(x, ast.Assign) and isinstance(x.targets[0], ast.Subscript) and norm(x.targets[0].value) == tname]
-        if not stores or not all(S.poly(x.targets[0].slice) == {(ivar,): 1, (cname,): -1} for x in stores):
-            probs.append(f"rows are stored at {[norm(x.targets[0].slice) for x in stores]}, not at {ivar} - {cname}")
+        incs_skip = [x for x in s.body if isinstance(x, ast.AugAssign) and isinstance(x.op, ast.Add) and norm(x.value) == "1" and isinstance(x.target, ast.Name)]
+        if not stores:
+            unknown.append("no store into the dual table found in the loop")
+        for x in stores:
+            sl = x.targets[0].slice
+            pl = S.poly(sl)
+            if isinstance(sl, ast.Name) and sl.id != ivar:
+                # idiom B: a row counter that starts at 0 and advances once for every node that is NOT skipped
+                r = sl.id
+                init = [st_ for st_ in iter_stmts(fn.body) if isinstance(st_, ast.Assign) and norm(st_.targets[0]) == r and st_.lineno < loop.lineno]
+                incs = [st_ for st_ in iter_stmts(loop.body) if isinstance(st_, ast.AugAssign) and norm(st_.target) == r]
+                in_skip = [st_ for st_ in incs if any(st_ is y for y in ast.walk(s))]
+                if not (init and norm(init[-1].value) == "0"):
+                    probs.append(f"row counter {r} does not start at 0")
+                if in_skip:
+                    probs.append(f"row counter {r} also advances for skipped nodes: rows of the table are left unwritten and later rows overflow")
+                good = [st_ for st_ in incs if isinstance(st_.op, ast.Add) and norm(st_.value) == "1" and st_.lineno > s.lineno and not any(st_ is y for y in ast.walk(s))]
+                if len(good) != 1 or len(incs) != 1:
+                    (unknown if incs else probs).append(f"row counter {r} is not advanced exactly once per constructed face")
+                elif good[0].lineno < x.lineno and any(good[0] is y for y in loop.body):
+                    probs.append(f"row counter {r} is advanced before the row is written: row 0 stays empty and the last row overflows")
+            elif len(pl or {}) == 2 and pl.get((ivar,)) == 1:
+                # idiom A: i - (number of nodes skipped so far)
+                cname = next((k_[0] for k_ in pl if k_ != (ivar,)), None)
+                if pl.get((cname,)) != -1:
+                    probs.append(f"rows are stored at {norm(sl)}, not at {ivar} - (skipped so far)")
+                elif not any(norm(i_.target) == cname for i_ in incs_skip):
+                    probs.append("skipped nodes are not counted: later rows are written at the wrong position")
+                else:
+                    other = [st_ for st_ in iter_stmts(loop.body) if isinstance(st_, ast.AugAssign) and norm(st_.target) == cname and not any(st_ is y for y in ast.walk(s))]
+                    if other:
+                        probs.append(f"{cname} also changes outside the skip branch")
+            elif isinstance(sl, ast.Name) and sl.id == ivar:
+                probs.append(f"rows are stored at {ivar}: after a skipped node the table (one row per node with >= 3 faces) overflows / leaves gaps")
+            else:
+                unknown.append(f"row position {norm(sl)[:40]} not recognised")
     if probs:
         run.violation("IDX/dual-rows", c, where(f, alloc), "; ".join(probs))
+    elif unknown:
+        run.incomplete("IDX/dual-rows", c, where(f, alloc), "idiom not recognised: " + "; ".join(unknown))
     else:
-        run.holds("IDX/dual-rows", c, where(f, alloc), "one row per primal node with >= 3 faces, INT_FILL_VALUE/INT_DTYPE, written at i - (nodes skipped so far)")
+        run.holds("IDX/dual-rows", c, where(f, alloc), "one row per primal node with >= 3 faces, INT_FILL_VALUE/INT_DTYPE, rows numbered densely over the nodes that are not skipped")
     # valid prefix of the node's faces
     c = f"{f.key}:valid-prefix"
-    pref = [n for n in ast.walk(fn) if isinstance(n, ast.Subscript) and isinstance(n.slice, ast.Slice) and "node_face_connectivity" in norm(n.value)]
-    if pref and norm(pref[0].slice.upper).startswith("n_edges[") and (pref[0].slice.lower is None or norm(pref[0].slice.lower) == "0"):
+    ivar = norm(loop.target) if loop is not None else "i"
+    reads = [n for n in ast.walk(fn) if isinstance(n, ast.Subscript) and isinstance(n.ctx, ast.Load) and "node_face_connectivity" in norm(n.value) and not norm(n).startswith("node_face_connectivity[0]")
+             and not (isinstance(n.slice, ast.Name) and n.slice.id == ivar and any(isinstance(p_, ast.Subscript) and p_.value is n for p_ in ast.walk(fn)))]
+    pref = [n for n in reads if isinstance(n.slice, ast.Slice)]
+    if pref and all(RZ.norm(n.slice.upper) == f"n_edges[{ivar}]" and (n.slice.lower is None or norm(n.slice.lower) == "0") and n.slice.step is None for n in pref if n.slice.upper is not None) and all(n.slice.upper is not None for n in pref):
         run.holds("IDX/fill-safety", c, where(f, pref[0]), "only the first n_edges[i] entries (the node's real faces) are used as dual node indices")
-    else:
+    elif pref or any(norm(n) == f"node_face_connectivity[{ivar}]" for n in reads):
         run.violation("IDX/fill-safety", c, where(f), "the node's row of node_face_connectivity is not restricted to its first n_edges[i] entries: the fill value is used as a dual node index")
+    else:
+        run.incomplete("IDX/fill-safety", c, where(f), "read of the node's row of node_face_connectivity not recognised")
     # arguments of _order_nodes
     g = P.func(f"{DUAL}:_order_nodes")
     call = next((n for n in ast.walk(fn) if isinstance(n, ast.Call) and (dotted(n.func) or [""])[-1] == "_order_nodes"), None)
@@ -164,82 +205,147 @@ def _construct_faces(run, P):
     if call is None:
         run.incomplete("F-TABLE/dual-roles", c, where(f), "call of _order_nodes not found")
         return
-    got = [norm(a) for a in call.args]
-    want = ["temp_face", "node_0", "node_central", "n_edges[i]", "dual_node_x", "dual_node_y", "dual_node_z", "max_edges"]
-    if got == want and g.params() == ["temp_face", "node_0", "node_central", "n_edges", "dual_node_x", "dual_node_y", "dual_node_z", "max_edges"]:
-        run.holds("F-TABLE/dual-roles", c, where(f, call), "arguments bound to the parameters of the same name")
+    gp = g.params()
+    bound = dict(zip(gp, call.args))
+    bound.update({k.arg: k.value for k in call.keywords if k.arg})
+    # roles by the callee's parameter names; locals resolved
+    ring = norm(bound["temp_face"]) if "temp_face" in bound else None
+    want = {"n_edges": {f"n_edges[{ivar}]"}, "dual_node_x": {"dual_node_x"}, "dual_node_y": {"dual_node_y"}, "dual_node_z": {"dual_node_z"}, "max_edges": {"max_edges", "len(node_face_connectivity[0])", "node_face_connectivity.shape[1]"}}
+    wrong = {p_: RZ.norm(bound[p_]) for p_, w in want.items() if p_ in bound and RZ.norm(bound[p_]) not in w}
+    missing = [p_ for p_ in gp if p_ not in bound]
+    if missing:
+        run.incomplete("F-TABLE/dual-roles", c, where(f, call), f"parameters {missing} of _order_nodes are not bound at the call")
+    elif wrong:
+        run.violation("F-TABLE/dual-roles", c, where(f, call), f"_order_nodes called with {wrong}")
     else:
-        run.violation("F-TABLE/dual-roles", c, where(f, call), f"_order_nodes{tuple(g.params())} called with {got}")
+        run.holds("F-TABLE/dual-roles", c, where(f, call), "count, dual node coordinates and row width bound to the parameters of those roles")
     # node_central = primal node i ; node_0 = first dual node of the ring
-    defs = LocalDefs(fn)
     c = f"{f.key}:reference-vectors"
-    nc = S.assigns(fn, "node_central")
-    n0 = S.assigns(fn, "node_0")
-    ok = nc and [norm(e) for e in nc[0].value.args[0].elts] == ["node_x[i]", "node_y[i]", "node_z[i]"] and n0 and [norm(e) for e in n0[0].value.args[0].elts] == ["dual_node_x[temp_face[0]]", "dual_node_y[temp_face[0]]", "dual_node_z[temp_face[0]]"]
-    if ok:
-        run.holds("F-TABLE/dual-roles", c, where(f, nc[0]), "ring centre = primal node (x, y, z); reference corner = first dual node (x, y, z)")
+
+    def vec_of(e):
+        """[x, y, z component texts] of np.array([a, b, c]) (locals resolved)"""
+        e = RZ.resolve(e)
+        nodes = [e]
+        if isinstance(e, ast.Name):
+            nodes = [v for v, _i, _l in RZ.defs.defs.get(e.id, [])]
+        for v in nodes:
+            if isinstance(v, ast.Call) and (dotted(v.func) or [""])[-1] in ("array", "asarray") and v.args and isinstance(v.args[0], (ast.List, ast.Tuple)) and len(v.args[0].elts) == 3:
+                return [RZ.norm(x) for x in v.args[0].elts]
+        return None
+    vc = vec_of(bound["node_central"]) if "node_central" in bound else None
+    v0 = vec_of(bound["node_0"]) if "node_0" in bound else None
+    if vc is None or v0 is None or ring is None:
+        run.incomplete("F-TABLE/dual-roles", c, where(f, call), "ring centre / reference corner are not np.array([x, y, z]) literals")
     else:
-        run.violation("F-TABLE/dual-roles", c, where(f), "ring centre / reference corner are not built as (x, y, z) of the primal node / first dual node")
+        first = [f"dual_node_{a_}[{ring}[0]]" for a_ in "xyz"]
+        if vc == [f"node_{a_}[{ivar}]" for a_ in "xyz"] and v0 == first:
+            run.holds("F-TABLE/dual-roles", c, where(f, call), "ring centre = primal node (x, y, z); reference corner = first dual node (x, y, z)")
+        else:
+            run.violation("F-TABLE/dual-roles", c, where(f, call), f"ring centre {vc} / reference corner {v0} are not (x, y, z) of the primal node / first dual node of the ring")
 
 
 def _order_nodes(run, P):
+    """Read over _order_nodes AND the functions of its module it calls (extracted kernels), with def-use followed across those calls; names are not relied on."""
+    from ..astutil import InterDefs
     f = P.func(f"{DUAL}:_order_nodes")
     fn = f.node
-    defs = LocalDefs(fn)
-    # the side test: sign of the triple product only
+    I = InterDefs(P, f)
+    R = "F-PATH/orientation-sign"
+
+    def calls_behind(g, e):
+        return [(h, n) for h, x in I.closure(g, e) for n in ast.walk(x) if isinstance(n, ast.Call)]
+
+    def cname(n):
+        return (dotted(n.func) or [""])[-1]
+    # ---- the side test: sign of the triple product only
     c = f"{f.key}:side-test"
     side = None
-    for st in iter_stmts(fn.body):
-        if isinstance(st, ast.If) and isinstance(st.test, ast.Compare) and len(st.test.ops) == 1:
-            l = st.test.left
-            if isinstance(l, ast.Name):
-                nodes, _ = defs.closure(l)
-                if any(isinstance(n, ast.Call) and (dotted(n.func) or [""])[-1] == "dot" and any("cross" in norm(a) for a in n.args) for e in nodes for n in ast.walk(e)):
-                    side = st
+    for g, st in I.stmts():
+        if isinstance(st, ast.If) and isinstance(st.test, ast.Compare) and len(st.test.ops) == 1 and isinstance(st.test.left, ast.Name):
+            cs = calls_behind(g, st.test.left)
+            dots = [(h, n) for h, n in cs if cname(n) == "dot"]
+            if any(any(cname(m) == "cross" for a_ in n.args for _h, m in calls_behind(h, a_)) for h, n in dots):
+                side = (g, st)
     if side is None:
-        run.incomplete("F-PATH/orientation-sign", c, where(f), "side test (dot of the reference normal with the corner direction) not found")
+        run.incomplete(R, c, where(f), "side test (dot of the reference normal with the corner direction) not found")
     else:
-        rhs = side.test.comparators[0]
+        g, st = side
+        rhs = st.test.comparators[0]
         zero = isinstance(rhs, ast.Constant) and rhs.value in (0, 0.0)
-        op_ok = isinstance(side.test.ops[0], (ast.Gt, ast.GtE, ast.Lt, ast.LtE))
+        op_ok = isinstance(st.test.ops[0], (ast.Gt, ast.GtE, ast.Lt, ast.LtE))
         if zero and op_ok:
-            # reflection 2 pi - angle on that side
-            refl = any(isinstance(s, ast.Assign) and "2.0 * np.pi" in norm(s.value).replace("2 * np.pi", "2.0 * np.pi") and norm(s.value).lstrip().startswith("-") for s in side.body)
+            def reflects(v):
+                t = norm(v).replace(" ", "").replace("2*np.pi", "2.0*np.pi").replace("2*pi", "2.0*np.pi").replace("2.0*pi", "2.0*np.pi")
+                return (t.startswith("-") and t.endswith("+2.0*np.pi")) or t.startswith("2.0*np.pi-")
+            refl = any(isinstance(s_, ast.Assign) and reflects(s_.value) for s_ in st.body) or any(isinstance(s_, ast.Return) and s_.value is not None and reflects(s_.value) for s_ in st.body)
             if refl:
-                run.holds("F-PATH/orientation-sign", c, where(f, side), "side decided by the sign of the triple product (compared with 0); angles on that side reflected to 2 pi - angle")
+                run.holds(R, c, where(g, st), "side decided by the sign of the triple product (compared with 0); angles on that side reflected to 2 pi - angle")
+            elif any(isinstance(s_, (ast.Assign, ast.Return, ast.AugAssign)) for s_ in st.body):
+                run.violation(R, c, where(g, st), "corners on the far side are not reflected to 2 pi - angle: the ring is ordered by the unsigned angle only")
             else:
-                run.violation("F-PATH/orientation-sign", c, where(f, side), "corners on the far side are not reflected to 2 pi - angle: the ring is ordered by the unsigned angle only")
+                run.incomplete(R, c, where(g, st), "what happens on the far side is not recognised")
         else:
-            run.violation("F-PATH/orientation-sign", c, where(f, side),
-                          f"the side of a corner is decided by {norm(side.test)}: the triple product scales with the square of the cell size, so anything but a comparison with 0 "
+            run.violation(R, c, where(g, st),
+                          f"the side of a corner is decided by {norm(st.test)}: the triple product scales with the square of the cell size, so anything but a comparison with 0 "
                           "(an absolute tolerance) puts every corner of a fine mesh on one side and breaks the counter-clockwise order")
-    # cosine clipped before arccos
+    # ---- cosine limited before arccos
     c = f"{f.key}:arccos-domain"
-    clip = any(isinstance(st, ast.If) and isinstance(st.test, ast.Compare) and norm(st.test.left) == "d_dot_norm" and isinstance(st.test.ops[0], ast.Gt) for st in iter_stmts(fn.body)) or \
-        any(isinstance(n, ast.Call) and (dotted(n.func) or [""])[-1] in ("clip", "minimum") for n in ast.walk(fn))
-    if clip:
-        run.holds("F-PATH/orientation-sign", c, where(f), "cosine limited to 1 before arccos")
+    acs = [(g, n) for g, n in I.walk() if isinstance(n, ast.Call) and cname(n) == "arccos" and n.args]
+    if not acs:
+        run.incomplete(R, c, where(f), "no arccos found")
     else:
-        run.violation("F-PATH/orientation-sign", c, where(f), "cosine not limited to [-1, 1] before arccos: round-off above 1 yields NaN angles")
-    # selection: strictly increasing angles
+        bad = None
+        for g, n in acs:
+            a0 = n.args[0]
+            limited = any(cname(m) in ("clip", "minimum", "fmin") for _h, m in calls_behind(g, a0))
+            if isinstance(a0, ast.Name):
+                for st in iter_stmts(g.node.body):
+                    if isinstance(st, ast.If) and isinstance(st.test, ast.Compare) and len(st.test.ops) == 1 and norm(st.test.left) == a0.id and isinstance(st.test.ops[0], (ast.Gt, ast.GtE)) \
+                            and any(isinstance(s_, ast.Assign) and norm(s_.targets[0]) == a0.id for s_ in st.body) and st.lineno < n.lineno:
+                        limited = True
+            if not limited:
+                bad = (g, n)
+        if bad:
+            run.violation(R, c, where(bad[0], bad[1]), "cosine not limited to [-1, 1] before arccos: round-off above 1 yields NaN angles")
+        else:
+            run.holds(R, c, where(acs[0][0], acs[0][1]), "cosine limited to 1 before arccos")
+    # ---- selection: strictly increasing angles
     c = f"{f.key}:selection"
-    sel = None
-    for n in ast.walk(fn):
-        if isinstance(n, ast.Compare) and len(n.ops) == 2 and "d_angles" in norm(n.comparators[0]):
-            sel = n
-    if sel is not None and all(isinstance(o, ast.Lt) for o in sel.ops) and norm(sel.left) == "d_current_angle" and norm(sel.comparators[1]) == "d_next_angle":
-        run.holds("F-PATH/orientation-sign", c, where(f, sel), "next corner = smallest angle strictly greater than the current one")
+    sels = [(g, n, st) for g, st in I.stmts() if isinstance(st, ast.If) for n in [st.test] if isinstance(n, ast.Compare) and len(n.ops) == 2 and isinstance(n.comparators[0], ast.Subscript)]
+    if not sels:
+        run.incomplete(R, c, where(f), "corner selection  current < angle[k] < best-so-far  not found")
     else:
-        run.violation("F-PATH/orientation-sign", c, where(f), f"corner selection is {norm(sel) if sel is not None else 'not found'}: expected current < angle[k] < best-so-far")
-    # padding: final_face is FILL-initialised with max_edges slots and filled from slot 0
+        g, n, st = sels[0]
+        mid, best = n.comparators[0], n.comparators[1]
+        strict = all(isinstance(o, ast.Lt) for o in n.ops)
+        upd = any(isinstance(s_, ast.Assign) and norm(s_.targets[0]) == norm(best) and norm(s_.value) == norm(mid) for s_ in st.body)
+        if strict and upd and isinstance(best, ast.Name):
+            run.holds(R, c, where(g, n), "next corner = smallest angle strictly greater than the current one")
+        elif not strict:
+            run.violation(R, c, where(g, n), f"corner selection is {norm(n)}: expected current < angle[k] < best-so-far (strict on both sides)")
+        elif not upd:
+            run.violation(R, c, where(g, n), f"the best-so-far bound {norm(best)} is not lowered to the selected angle: the LAST admissible corner is taken, not the nearest")
+        else:
+            run.incomplete(R, c, where(g, n), f"corner selection {norm(n)} not recognised")
+    # ---- padding: the returned row is FILL-initialised with max_edges slots and filled from slot 0 with the ring's first entry
     c = f"{f.key}:padding"
-    ff = S.assigns(fn, "final_face")
-    ok = bool(ff) and "INT_FILL_VALUE" in norm(ff[0].value) and "max_edges" in norm(ff[0].value) and "INT_DTYPE" in norm(ff[0].value)
-    first = any(isinstance(st, ast.Assign) and norm(st.targets[0]) == "final_face[0]" and norm(st.value) == "temp_face[0]" for st in iter_stmts(fn.body))
-    if ok and first:
-        run.holds("IDX/dual-rows", c, where(f, ff[0]), "ring written from slot 0 into a row of INT_FILL_VALUE (INT_DTYPE, max_edges wide)")
+    rets = [r for r in ast.walk(fn) if isinstance(r, ast.Return) and r.value is not None]
+    params = f.params()
+    if not rets or not all(isinstance(r.value, ast.Name) for r in rets):
+        run.incomplete("IDX/dual-rows", c, where(f), "returned row is not a local array")
     else:
-        run.violation("IDX/dual-rows", c, where(f), "ring row is not an INT_DTYPE row of INT_FILL_VALUE filled from slot 0")
+        row = rets[0].value.id
+        ff = S.assigns(fn, row)
+        txt = norm(ff[0].value) if ff else ""
+        ok = bool(ff) and "INT_FILL_VALUE" in txt and "max_edges" in txt and "INT_DTYPE" in txt
+        first = any(isinstance(st, ast.Assign) and norm(st.targets[0]) == f"{row}[0]" and norm(st.value) == f"{params[0]}[0]" for st in iter_stmts(fn.body))
+        if ok and first:
+            run.holds("IDX/dual-rows", c, where(f, ff[0]), "ring written from slot 0 into a row of INT_FILL_VALUE (INT_DTYPE, max_edges wide)")
+        elif ff and isinstance(ff[0].value, ast.Call) and (dotted(ff[0].value.func) or [""])[-1] in ("array", "full", "empty", "zeros", "ones"):
+            run.violation("IDX/dual-rows", c, where(f, ff[0]), "ring row is not an INT_DTYPE row of INT_FILL_VALUE filled from slot 0")
+        else:
+            run.incomplete("IDX/dual-rows", c, where(f), "allocation of the returned row not recognised")
+    run.stats.setdefault("order_nodes_scope", [g.key for g in I.scope])
 
 
 def _siblings(run, P):
